@@ -86,7 +86,7 @@ func (f *Feature) UnmarshalJSON(data []byte) error {
 	}
 
 	doc := &featureDoc{}
-	err := unmarshalJSON(data, &doc)
+	err := unmarshalJSON(data, doc)
 	if err != nil {
 		return err
 	}
@@ -97,7 +97,7 @@ func (f *Feature) UnmarshalJSON(data []byte) error {
 // UnmarshalBSON will unmarshal a BSON document created with bson.Marshal.
 func (f *Feature) UnmarshalBSON(data []byte) error {
 	doc := &featureDoc{}
-	err := bson.Unmarshal(data, &doc)
+	err := bson.Unmarshal(data, doc)
 	if err != nil {
 		return err
 	}
